@@ -65,6 +65,12 @@ UNOPS = {
     "attr_real": lambda a: a.real, "attr_n": lambda a: a.n, "attr_missing": lambda a: a.no_such_attribute,
     "method_upper": lambda a: a.upper(), "method_count": lambda a: a.count(1), "method_user": lambda a: a.method(1, b=5),
     "method_keys": lambda a: sorted(map(str, a.keys())), "dunder_missing": lambda a: a.__no_such_dunder__,
+    # the same operation applied twice to one proxy, the underlying object changing in between:
+    # every application goes to the result as it is *now* (nothing may be cached on the proxy)
+    "attr_n_twice": lambda a: (a.n, setattr(under(a), "n", 41), a.n, delattr(under(a), "n"), outcome(lambda: a.n)),
+    "method_twice": lambda a: (a.method(1, b=5), setattr(under(a), "n", 9), a.method(2, b=6)),
+    "len_after_append": lambda a: (len(a), under(a).append(0), len(a), list(iter(a)), a[-1], 0 in a),
+    "real_twice": lambda a: (a.real, a.real, a.imag),
 }
 
 
